@@ -125,18 +125,29 @@ def dnf_equivalent(d1, d2, extra2=()):
     return None if r is None else (r[0] and r[1])
 
 
-def _hash_version_exactly_when_versioned(fa, asg, val):
-    """The value bound to the field gets '#' + version appended exactly when `version is not None`: every place where
-    '#' and the version are joined (`+=`, `+`, format, f-string; in a statement under an `if` or in an arm of a
-    conditional expression) and whose result can flow into the value is collected with the condition under which it is
-    evaluated; together these conditions must amount to `version is not None`."""
+def _is_version(fa, e, at):
+    """does `e` (evaluated at CFG node `at`) denote the constructor's version (the parameter, possibly defaulted from
+    the function, through any chain of temporaries / str())?"""
+    try:
+        x = fa.expand(e, at)
+    except AnalysisError:
+        x = e
+    while isinstance(x, ast.Call) and isinstance(x.func, ast.Name) and x.func.id in ("str", "cast") and x.args and not x.keywords:
+        x = x.args[-1]
+    return isinstance(x, ast.Name) and x.id == "version"
+
+
+def _join_conditions(fa, val, at):
+    """Every place where '#' and the version are joined (`+=`, `+`, format, f-string, %; in a statement under an `if`
+    or in an arm of a conditional expression) and whose result can flow into `val` (evaluated at `at`), with the
+    condition under which it is evaluated: a DNF (set of frozensets of literals); None when there are too many paths."""
     pm = fa.pm
     dnf = set()
-    for (n, at) in _flow_nodes(fa, val, fa.nodes(asg)[0]).values():
+    for (n, n_at) in _flow_nodes(fa, val, at).values():
         parts = A.str_parts(n) if isinstance(n, (ast.BinOp, ast.JoinedStr, ast.Call)) else None
         if not parts:
             continue
-        joined = any(k1 == "lit" and v1.endswith("#") and k2 == "expr" and isinstance(v2, ast.Name) and v2.id == "version"
+        joined = any(k1 == "lit" and v1.endswith("#") and k2 == "expr" and _is_version(fa, v2, n_at)
                      for (k1, v1), (k2, v2) in zip(parts, parts[1:]))
         if not joined:
             continue
@@ -146,23 +157,133 @@ def _hash_version_exactly_when_versioned(fa, asg, val):
         while x is not None and not isinstance(x, ast.stmt):
             p_ = pm.get(x)
             if isinstance(p_, ast.IfExp) and x is not p_.test:
-                guards += fa._atoms(p_.test, at, x is p_.body)
+                guards += fa._atoms(p_.test, n_at, x is p_.body)
             x = p_
         st = x
         conds = fa.conditions(st) if st is not None else None
         if conds is None:
-            return False
+            return None
         for c in conds:
             lits = set(c) | set(guards)
             if any((t, not pol) in lits for (t, pol) in lits):
                 continue
             dnf.add(frozenset(lits))
     # (a site nested in a larger concatenation is seen twice, with the same condition: harmless)
-    # exactly when versioned: [the '#'+version text is produced] == [the field is assigned] and [version is not None]
-    reach = fa.conditions(asg)
-    if reach is None or not dnf:
+    return dnf
+
+
+def _conj_product(d1, d2):
+    """DNF of (d1 and d2); contradictory conjuncts dropped"""
+    out = set()
+    for a in d1:
+        for b in d2:
+            c = set(a) | set(b)
+            if not any((t, not p_) in c for (t, p_) in c):
+                out.add(frozenset(c))
+    return out
+
+
+def simplify_dnf(dnf):
+    """resolution ((A & x) | (A & ~x) = A) and absorption, as FA.conditions does"""
+    res = set(dnf)
+    changed = True
+    while changed:
+        changed = False
+        lst = list(res)
+        for i in range(len(lst)):
+            for j in range(i + 1, len(lst)):
+                a, b = lst[i], lst[j]
+                diff = a ^ b
+                if len(diff) == 2:
+                    x, y = tuple(diff)
+                    if x[0] == y[0] and x[1] != y[1]:
+                        res.add(a & b)
+                        res.discard(a)
+                        res.discard(b)
+                        changed = True
+                        break
+            if changed:
+                break
+        if not changed:
+            for a in list(res):
+                if any(b < a for b in res):
+                    res.discard(a)
+                    changed = True
+    return res
+
+
+def final_bind_paths(fa, resets, extends, cap=4000):
+    """Which bindings make up what a field holds when the function returns normally, per path class:
+    {tuple of CFG node ids: DNF}.  `resets`: nodes that assign the field (everything before is forgotten), `extends`:
+    nodes that build on its previous value (`+=`).  Paths are followed from the entry until no binding can follow
+    any more; the tuple is () for paths on which the field is never bound.  None when there are too many paths."""
+    cfg = fa.cfg
+    marks = set(resets) | set(extends)
+    to_exit = {n.id for n in cfg.nodes if cfg.exit in cfg.reach([n.id])}
+    more = {n.id for n in cfg.nodes if cfg.reach([n.id], include_start=False) & marks}
+    res = {}
+    count = [0]
+
+    def dfs(n, onpath, lits, seq):
+        if count[0] > cap:
+            return
+        if n in resets:
+            seq = (n,)
+        elif n in extends:
+            seq = seq + (n,)
+        if n == cfg.exit or n not in more:
+            count[0] += 1
+            res.setdefault(seq, set()).add(frozenset(lits))
+            return
+        nd = cfg.node(n)
+        for (d, l) in cfg.succ[n]:
+            if d in onpath or l == "exc" or d not in to_exit:
+                continue
+            add = []
+            if nd.kind == "test" and l in ("T", "F") and not isinstance(fa.pm.get(nd.ast), ast.While):
+                add = fa._atoms(nd.ast, n, l == "T")
+            if any((a[0], not a[1]) in lits for a in add):
+                continue
+            onpath.add(d)
+            dfs(d, onpath, lits + [a for a in add if a not in lits], seq)
+            onpath.discard(d)
+
+    dfs(cfg.entry, {cfg.entry}, [], ())
+    if count[0] > cap:
+        return None
+    return {seq: simplify_dnf(d) for seq, d in res.items()}
+
+
+def _hash_version_exactly_when_versioned(fa, binds):
+    """What the field finally holds gets '#' + version appended exactly when `version is not None`.  `binds` are the
+    bindings of the field: [(statement, value expression, extends)] (plain, one element of a tuple assignment, or the
+    right-hand side of `+=`).  For every binding the places where '#' and the version are joined and flow into its
+    value are collected with the conditions under which they are evaluated; per class of paths to the normal exit the
+    bindings that make up the final value are known; over all of them, [a join happened and is part of the final value]
+    must amount to [version is not None] — whether there is one binding after a conditional `+=`, one binding per
+    case, an early return per case, or a later binding that replaces an earlier one."""
+    by_node = {}
+    for (asg, val, ext) in binds:
+        for i in fa.nodes(asg):
+            by_node[i] = (asg, val, ext)
+    paths = final_bind_paths(fa, {i for i, b in by_node.items() if not b[2]}, {i for i, b in by_node.items() if b[2]})
+    if paths is None:
+        raise AnalysisError("%s: too many paths around the construction of the qualified name" % fa.qual)
+    joins = {}
+    joined, finished = set(), set()
+    for seq, dnf in paths.items():
+        finished |= dnf
+        if not seq:
+            return False    # a path on which the field is never bound
+        for i in seq:
+            if i not in joins:
+                joins[i] = _join_conditions(fa, by_node[i][1], i)
+                if joins[i] is None:
+                    raise AnalysisError("%s: too many paths around the construction of the qualified name" % fa.qual)
+            joined |= _conj_product(joins[i], dnf)
+    if not joined:
         return False
-    eq = dnf_equivalent(dnf, reach, extra2=[("version is None", False)])
+    eq = dnf_equivalent(simplify_dnf(joined), simplify_dnf(finished), extra2=[("version is None", False)])
     if eq is None:
         raise AnalysisError("%s: too many independent conditions around the construction of the qualified name" % fa.qual)
     return eq
@@ -282,21 +403,31 @@ def check_keying(ck, rule):
                           A.loc(fi, n))
     # FunctionReference: the qualified name depends on the version
     fa = FA(ck, "reference.FunctionReference.__init__")
-    # every binding of the field (plain or as one element of a tuple assignment)
+    # every binding of the field (plain, one element of a tuple assignment, `+=`)
+    FIELD = "self._qualified_name"
     binds = []
-    for s_ in fa.stmts(ast.Assign):
+    for s_ in fa.stmts((ast.Assign, ast.AugAssign, ast.AnnAssign)):
+        if not fa.nodes(s_):
+            continue
+        if isinstance(s_, ast.AugAssign):
+            if A.dotted(s_.target) == FIELD:
+                binds.append((s_, s_.value, isinstance(s_.op, ast.Add)))
+            continue
+        if isinstance(s_, ast.AnnAssign):
+            if A.dotted(s_.target) == FIELD and s_.value is not None:
+                binds.append((s_, s_.value, False))
+            continue
         for t in s_.targets:
-            if A.dotted(t) == "self._qualified_name":
-                binds.append((s_, s_.value))
+            if A.dotted(t) == FIELD:
+                binds.append((s_, s_.value, False))
             elif isinstance(t, (ast.Tuple, ast.List)) and isinstance(s_.value, (ast.Tuple, ast.List)) and len(t.elts) == len(s_.value.elts):
                 for (te, ve) in zip(t.elts, s_.value.elts):
-                    if A.dotted(te) == "self._qualified_name":
-                        binds.append((s_, ve))
+                    if A.dotted(te) == FIELD:
+                        binds.append((s_, ve, False))
+            elif isinstance(t, (ast.Tuple, ast.List)) and any(A.dotted(te) == FIELD for te in t.elts):
+                binds.append((s_, s_.value, False))
     binds = fa.some(binds, "assignment to self._qualified_name")
-    ok = True
-    for (asg, val) in binds:
-        deps = fa.deps(val, fa.nodes(asg)[0])
-        ok = ok and "param:version" in deps and any(d == "const:'#'" for d in deps) and _hash_version_exactly_when_versioned(fa, asg, val)
+    ok = _hash_version_exactly_when_versioned(fa, binds)
     asg = binds[0][0]
     ck.ob(rule, fa.key(None, "versioned-name"), ok, "qualified_name = name + '#' + version whenever a version exists" if ok else
           "the qualified name is not extended with '#'+version whenever a version exists", fa.where(asg))
